@@ -35,6 +35,7 @@ META = {
   "public = sizes/lengths (concrete per query), buffer addresses, announced bit lengths (m[0] header words), vtable pointers; secret = everything else the harness draws in c08_secret()",
   "allocas are per-site static objects and both runs use the same harness buffers, so equal (object, offset) observations mean equal addresses; recursion is refused by the translator",
   "IR 'select', integer multiplication and shifts are taken as constant-time; udiv/sdiv/urem/srem operands are observed (reported as 'variable-time division')",
+  "queries run with --no-standard-checks (CBMC's pointer/bounds instrumentation triples symex time): memory safety of the same functions at these sizes is the obligation of C05/C09/C12; an out-of-bounds address would still be an (object, offset) observation here",
  ],
  "outside_claim": [
   "machine code (Xtensa/x86) and back-end lowering of select/cmov, multiplication latency",
@@ -53,11 +54,11 @@ ENTRIES = []
 
 
 def entry(name, harness, tus, entries, sizes, opts=OPTS, quick_opts=("Os",), real_units=None, config="host",
-          backend="cadical", timeout=240, desc="", secret="", public="", cdefs=(), expect_refused=False, control=False):
+          backend="cadical", timeout=240, fsarray=256, desc="", secret="", public="", cdefs=(), expect_refused=False, control=False):
     """sizes: list of dict(tag=, defs={..}, unwind=, unwindset=[..], tier=)"""
     ENTRIES.append(dict(name=name, harness=harness, tus=list(tus), entries=list(entries), sizes=sizes, opts=opts,
                         quick_opts=quick_opts, real_units=list(real_units if real_units is not None else tus),
-                        config=config, backend=backend, timeout=timeout, desc=desc, secret=secret, public=public,
+                        config=config, backend=backend, timeout=timeout, fsarray=fsarray, desc=desc, secret=secret, public=public,
                         cdefs=list(cdefs), expect_refused=expect_refused, control=control))
 
 
@@ -105,6 +106,35 @@ for iw in (15, 31):
               quick_opts=OPTS if iw == 15 else ("Os",),
               desc="br_i%d_%s" % (iw, nm), secret="all value words of all operands incl. modulus and m0i, exponent/source bytes, ctl",
               public="announced bit length (header word), byte/word lengths, addresses")
+
+# (c) HMAC with hidden length
+HM = ["src/mac/hmac_ct.c", "src/codec/ccopy.c"]
+entry("hmac_outCT", "C08_hmac.c", HM, ["br_hmac_outCT"],
+      [S("stub-0-40", 70, MINLEN=0, MAXLEN=40), S("stub-13-77", 140, MINLEN=13, MAXLEN=77),
+       S("stub-60-200", 300, MINLEN=60, MAXLEN=200, tier="thorough")],
+      quick_opts=OPTS, desc="br_hmac_outCT over a stub Merkle-Damgard hash class",
+      secret="len within [min_len,max_len], data bytes, hash state, kso", public="min_len, max_len, addresses, hash class")
+entry("hmac_outCT_sha1", "C08_hmac.c", HM + ["src/hash/sha1.c", "src/codec/enc32be.c", "src/codec/dec32be.c"], ["br_hmac_outCT", "br_sha1_vtable"],
+      [S("sha1-5-37", 90, MINLEN=5, MAXLEN=37, REALHASH=1), S("sha1-0-120", 200, MINLEN=0, MAXLEN=120, REALHASH=1, tier="thorough")],
+      desc="br_hmac_outCT over the translated br_sha1 (vtable, update, state, set_state, out, sha1_round all at IR level)",
+      secret="len within [min_len,max_len], data bytes, hash state, kso", public="min_len, max_len, addresses")
+entry("hmac_outCT_md5", "C08_hmac.c", HM + ["src/hash/md5.c", "src/codec/enc32le.c", "src/codec/dec32le.c"], ["br_hmac_outCT", "br_md5_vtable"],
+      [S("md5-5-37", 90, MINLEN=5, MAXLEN=37, REALHASH=2)],
+      desc="br_hmac_outCT over the translated br_md5", secret="len within [min_len,max_len], data bytes, hash state, kso", public="min_len, max_len, addresses")
+
+# (d) CBC record decryption (padding + MAC check), real HMAC + hash at IR level, stand-in cipher
+CBC = ["src/ssl/ssl_rec_cbc.c", "src/mac/hmac.c", "src/mac/hmac_ct.c", "src/codec/ccopy.c"]
+SHA1 = ["src/hash/sha1.c", "src/codec/enc32be.c", "src/codec/dec32be.c"]
+MD5 = ["src/hash/md5.c", "src/codec/enc32le.c", "src/codec/dec32le.c"]
+entry("cbc_decrypt_sha1", "C08_cbc.c", CBC + SHA1, ["cbc_decrypt", "br_sha1_vtable"],
+      [S("RL64-expl", 130, RL=64, EXPL=1, MACH=1), S("RL48-impl", 130, RL=48, EXPL=0, MACH=1),
+       S("RL96-expl", 200, RL=96, EXPL=1, MACH=1, tier="thorough"), S("RL320-expl", 500, RL=320, EXPL=1, MACH=1, tier="thorough")],
+      desc="cbc_decrypt + br_hmac_init/update/outCT + br_sha1 (all IR), stand-in block cipher",
+      secret="all record bytes (padding length, padding, MAC, payload), cipher key, MAC key states", public="record length, explicit-IV flag, mac_len, seq/type/version, addresses; accept/reject declassified")
+entry("cbc_decrypt_md5", "C08_cbc.c", CBC + MD5, ["cbc_decrypt", "br_md5_vtable"],
+      [S("RL48-expl", 130, RL=48, EXPL=1, MACH=2)],
+      desc="cbc_decrypt + br_hmac_* + br_md5 (all IR), stand-in block cipher",
+      secret="all record bytes, cipher key, MAC key states", public="record length, explicit-IV flag, mac_len, seq/type/version, addresses; accept/reject declassified")
 
 # ---------------------------------------------------------------------------
 # generation + translation validation
@@ -246,11 +276,11 @@ def tv_one(e, opt, sz, g):
         return dict(ok=False, reason="TV build failed: " + out[-1500:])
     seed = os.environ.get("VERIF_SEED", "0") or "0"
     rc, out = sh([exe, str(int(seed) + 1)], timeout=300)
-    m = re.search(r"TV-OK matched=(\d+) skipped=(\d+) outbytes=(\d+) obs_min=(\d+) obs_max=(\d+)", out)
+    m = re.search(r"TV-OK matched=(\d+) skipped=(\d+) outbytes=(\d+) obs_min=(\d+) obs_max=(\d+) div_max=(\d+)", out)
     if rc != 0 or not m:
         return dict(ok=False, reason="TV run rc=%d: %s" % (rc, out[-600:]))
     return dict(ok=True, matched=int(m.group(1)), skipped=int(m.group(2)), outbytes=int(m.group(3)),
-                obs_min=int(m.group(4)), obs_max=int(m.group(5)))
+                obs_min=int(m.group(4)), obs_max=int(m.group(5)), div_max=int(m.group(6)))
 
 
 def run_mode():
@@ -335,14 +365,14 @@ def prepare():
         return _prepared
 
 
-def write_logh(name, logn):
-    """chunked observation log for CBMC (see harness/C08_rt.h)"""
-    k = (logn + 63) // 64
-    o = ["#define C08_LOGN %d" % logn]
-    for fam, ty in (("v0", "uint64_t"), ("v1", "uint64_t"), ("t0", "uint32_t")):
+def write_logh(name, logn, divn):
+    """chunked observation logs for CBMC (see harness/C08_rt.h)"""
+    o = ["#define C08_LOGN %d" % logn, "#define C08_DIVN %d" % divn]
+    for fam, n in (("v0", logn), ("v1", logn), ("d0", divn), ("d1", divn)):
+        k = (n + 63) // 64
         for i in range(k):
-            o.append("static %s c08_%s_%d[64];" % (ty, fam, i))
-        o.append("static %s *const c08_%s[] = {%s};" % (ty, fam, ", ".join("c08_%s_%d" % (fam, i) for i in range(k))))
+            o.append("static uint64_t c08_%s_%d[64];" % (fam, i))
+        o.append("static uint64_t *const c08_%s[] = {%s};" % (fam, ", ".join("c08_%s_%d" % (fam, i) for i in range(k))))
     with open(os.path.join(GEN, name), "w") as f:
         f.write("\n".join(o) + "\n")
 
@@ -350,13 +380,16 @@ def write_logh(name, logn):
 def mkq(e, opt, sz, tv):
     logn = tv["obs_max"] + 8
     logh = "%s_%s_%s.log.h" % (e["name"], opt, sz["tag"])
-    write_logh(logh, logn)
+    divn = tv["div_max"] + 8
+    write_logh(logh, logn, divn)
     tier = q_tier(e, opt, sz)
-    uw = ["c08_cmploop.0:%d" % (logn + 2)] + sz["unwindset"]
+    memn = max(300, sz["unwind"])
+    uw = ["c08_cmploop.0:%d" % (logn + 2), "c08_cmpdiv.0:%d" % (divn + 2), "ir_memcpy_.0:%d" % memn, "ir_memset_.0:%d" % memn,
+          "ir_memmove_.0:%d" % memn, "ir_memmove_.1:%d" % memn] + sz["unwindset"]
     return Q(qname(e, opt, sz), e["harness"],
-             defs=["-I" + GEN, "-DC08_GEN=\"%s_%s.c\"" % (e["name"], opt), "-DC08_LOGN=%d" % logn, "-DC08_LOGH=\"%s\"" % logh, "-DVLOG_MAX=20000"] + e["cdefs"] + size_defs(sz),
-             unwind=sz["unwind"], unwindset=uw, backend=e["backend"], timeout=e["timeout"] if tier == "quick" else 900,
-             tier=tier, config=e["config"], checks=False,
+             defs=["-I" + GEN, "-DC08_GEN=\"%s_%s.c\"" % (e["name"], opt), "-DC08_LOGN=%d" % logn, "-DC08_DIVN=%d" % divn, "-DC08_LOGH=\"%s\"" % logh, "-DVLOG_MAX=20000"] + e["cdefs"] + size_defs(sz),
+             unwind=sz["unwind"], unwindset=uw, fsarray=e["fsarray"], backend=e["backend"], timeout=e["timeout"] if tier == "quick" else 900,
+             tier=tier, config=e["config"], checks=False, flags=["--no-standard-checks"],
              desc="%s at clang -%s, %s: same branch/address/length/call-target/division-operand trace for all secrets (%s); public: %s; %d observations per run" %
                   (e["desc"], opt, sz["tag"], e["secret"], e["public"], tv["obs_max"]))
 
